@@ -43,3 +43,28 @@ def S_iter(case):
 
 def context(ix, around=None, limit=80):
     return brief(ix.events, limit)
+
+
+STOP_CLAUSES = ('start-after-stop', 'waited-for-normal-completion', 'not-cancelled',
+                'cancelled-at-wrong-instant', 'no-shutdown-phase',
+                'shutdown-phase-begins-at-wrong-instant', 'run-ends-at-wrong-instant')
+
+
+def phase_oracle(prop_id, cause, ix, trace, res, clauses=STOP_CLAUSES, results=True):
+    """apply the phase-chain clauses to every scheduler run that ended with `cause`;
+    returns the list of analyses (for non-triviality rules)"""
+    from .. import phases
+    out = []
+    for sp in ix.scheds():
+        an = phases.analyse(ix, sp['id'])
+        if an is None or an['cause'] != cause:
+            continue
+        out.append((sp, an))
+        for clause, msg in an['findings']:
+            if clause in clauses:
+                res.fail('%s:%s' % (prop_id, clause), msg, context(ix))
+        if results:
+            for clause, msg in phases.kept_results(ix, sp['id'], trace):
+                res.fail('%s:%s' % (prop_id, clause), "scheduler %s: %s" % (sp['id'], msg),
+                         context(ix))
+    return out
